@@ -2,5 +2,6 @@ SPECIFICATION Spec
 CONSTANTS
   MaxDepth = 3000
 INVARIANT C02
+ALIAS Shown
 POSTCONDITION AllJudged
 CHECK_DEADLOCK FALSE
